@@ -2431,7 +2431,8 @@ func (n *NullValue) String() string {
 }
 
 func (n *NullValue) Compare(val TypedValue) (int, error) {
-	if n.t != AnyType && val.Type() != AnyType && n.t != val.Type() {
+	// INTEGER and FLOAT values compare with each other, so must their NULLs
+	if n.t != AnyType && val.Type() != AnyType && n.t != val.Type() && !(IsNumericType(n.t) && IsNumericType(val.Type())) {
 		return 0, ErrNotComparableValues
 	}
 
